@@ -128,6 +128,18 @@ def monitors(s):
                     out.append(("a %s issued while run %s was active (bound, not shut down) was not refused silently: exit %d, "
                                 "executed=%s, recorded=%s, new history entries=%d"
                                 % (b["kind"], a["tag"], b["code"], executed(b), recorded(s, b), b.get("hist_new", 0)), [a["i"], b["i"]]))
+    for b in ps:
+        for a in ps:
+            sv = serving(a)
+            # b's whole life fell inside a's serving interval (whatever path spelling b was given, whatever socket it probed)
+            if a is b or not sv or not b["exited"] or not (sv[0] + MARGIN < b["launched"] and b["exited"] < sv[1] - MARGIN):
+                continue
+            if b["code"] == 0 or executed(b) or recorded(s, b) or b.get("hist_new", 0) > 0:
+                msg = ("a %s of the same file (given as %s) that lived entirely while run %s was active was not refused silently: exit %d, "
+                       "executed=%s, recorded=%s, new history entries=%d"
+                       % (b["kind"], b.get("path", "?"), a["tag"], b["code"], executed(b), recorded(s, b), b.get("hist_new", 0)))
+                if not any(w[1] == [a["i"], b["i"]] for w in out):
+                    out.append((msg, [a["i"], b["i"]]))
     for a in ps:
         sv = serving(a)
         if not sv:
@@ -295,7 +307,7 @@ def model_replay(ctx, scns, cluster=CLUSTER, maxcand=MAXCAND, tag="cases_c16"):
 def summary(s):
     return {"name": s["name"], "delay_us": s["delay_us"],
             "procs": [{"tag": p["tag"], "kind": p["kind"], "inject": p["inject"], "code": p["code"], "class": klass(p),
-                       "executed": executed(p), "recorded": recorded(s, p),
+                       "path": p.get("path"), "executed": executed(p), "recorded": recorded(s, p),
                        "calls": [(a["act"], round(a["t"] - s["procs"][0]["launched"], 4), a["ok"]) for a in p["anchors"]],
                        "steps": [(m["step"], round(m["t"] - s["procs"][0]["launched"], 3)) for m in p["markers"]]} for p in s["procs"]],
             "probes": [(pr["label"], round(pr["t"] - s["procs"][0]["launched"], 3), pr["answered"], pr["pid"]) for pr in s["probes"]],
